@@ -466,7 +466,7 @@ WPROFILES = [Profile(p_wrap=0.5, n_procs=(1, 2), p_cycle_bias=0.85, fields=(1, 4
 
 
 def run(ctx):
-    static_ok = vlib.static_obligations(ctx)
+    static_ok = vlib.static_obligations(ctx, extra_targets=["Corr/WiringFacts.vo"])
     binp = vlib.go_build(ctx, "./cmd/c04")
     rng = ctx.rng
     cases = [dict(c) for c in CORPUS]
